@@ -32,9 +32,11 @@ type roundedCounter struct {
 
 // Implements the RoundedCounter interface
 func (c *roundedCounter) Inc() {
-	atomic.AddUint64(&c.total, 1)
+	total := atomic.AddUint64(&c.total, 1)
 	verifhook.Point("broker.roundedcounter.inc")
-	if c.total > c.value {
+	// Each value of total is returned to exactly one caller, so the rounded
+	// count is bumped exactly once per 8 increments, also under concurrency.
+	if total%8 == 1 {
 		atomic.AddUint64(&c.value, 8)
 	}
 }
@@ -48,7 +50,7 @@ func (c *roundedCounter) Desc() *prometheus.Desc {
 func (c *roundedCounter) Write(m *dto.Metric) error {
 	m.Label = c.labelPairs
 
-	m.Counter = &dto.Counter{Value: proto.Float64(float64(c.value))}
+	m.Counter = &dto.Counter{Value: proto.Float64(float64(atomic.LoadUint64(&c.value)))}
 	return nil
 }
 
